@@ -10,8 +10,8 @@ import (
 	"time"
 
 	websocket "github.com/sheerbytes/sheerbytes/internal/verif/venv/vws"
-	vrt "github.com/sheerbytes/sheerbytes/internal/verif/vrt"
 	"github.com/sheerbytes/sheerbytes/internal/verif/vlib"
+	vrt "github.com/sheerbytes/sheerbytes/internal/verif/vrt"
 	"github.com/sheerbytes/sheerbytes/pkg/protocol"
 )
 
